@@ -348,6 +348,248 @@ def exhaustive_cases():
                        "queries": queries, "shape": "exhaustive"}
 
 
+# ------------------------------------------------------------------ size stream
+# Stores that are LARGE (thousands of facts: several zstd blocks, a compressed frame that announces the
+# encoder level's full window) or hold LONG lines (one constant printing to 4-60 KB: longer than a bufio
+# buffer, shorter than the scanner's 64 KiB token limit of N43). They are described by parameters - the
+# harness (harness/c19/size.go, runner c19_size) builds the constants from (kind, key, length, seed) - and
+# judged by the property's own oracle on Go's outputs: what ReadInto and the lazy store return must be the
+# written set. No Coq term is made for them (the model reads long literals slowly); the expected COUNTS
+# are computed here from the keys, independently of the harness.
+ZLEVELS = ["fastest", "default", "better", "best"]
+LONG_LENS = [4090, 4096, 4097, 4100, 4500, 6000, 8191, 8192, 8193, 10000, 12288, 16384, 16500, 20000, 24576, 33000, 45000, 58000]
+LONG_KINDS = ["str", "bytes", "list", "slist"]
+
+
+def sz_col(kind, mul=1, add=0, mod=0, length=0, pfx="n"):
+    return {"kind": kind, "mul": mul, "add": add, "mod": mod, "len": length, "pfx": pfx}
+
+
+def sz_key(col, i):
+    k = i * col["mul"] + col["add"]
+    return k % col["mod"] if col["mod"] else k
+
+
+def sz_rows(p):
+    return [tuple(sz_key(c, i) for c in p["cols"]) for i in range(p["n"])]
+
+
+def sz_variant(comp, level="", mode="", eager=False, real=False, qsel=None, contains=False):
+    return {"comp": comp, "level": level, "mode": mode, "eager": eager, "real": real, "qsel": qsel, "contains": contains}
+
+
+def sz_queries(rng, preds, nbound):
+    """An all-variable query for every predicate, then constant-bound ones: every single column, all columns
+    of one row (ground), columns of two different rows, a constant no row holds. nbound(p) = how many of the
+    bound ones are kept for predicate p (None = all); the first column bound is always among them (the
+    reader then skips the other columns of the rows that differ)."""
+    qs = [{"pred": i, "bind": {}} for i in range(len(preds))]
+    for i, p in enumerate(preds):
+        if p["arity"] == 0:
+            continue
+        n, ar = max(p["n"], 1), p["arity"]
+        bound = [{"pred": i, "bind": {str(j): rng.randrange(n)}} for j in range(ar)]
+        r = rng.randrange(n)
+        bound.append({"pred": i, "bind": {str(j): r for j in range(ar)}})
+        bound.append({"pred": i, "bind": {str(j): rng.randrange(n) for j in range(ar) if rng.random() < 0.7}})
+        bound.append({"pred": i, "bind": {str(rng.randrange(ar)): p["n"] + 1 + rng.randrange(50)}})
+        k = nbound(p)
+        if k is not None:
+            bound = [bound[0]] + rng.sample(bound[1:], max(0, min(k, len(bound)) - 1))
+        qs += bound
+    return qs
+
+
+def sz_expected(case, q):
+    p = case["preds"][q["pred"]]
+    if p["arity"] == 0:
+        return p["n"]
+    want = {int(j): sz_key(p["cols"][int(j)], r) for j, r in q["bind"].items()}
+    return sum(1 for row in sz_rows(p) if all(row[j] == k for j, k in want.items()))
+
+
+BIG = 1000      # predicates with more facts are "big": parsing 10^4 lines costs the reader about half a second
+
+
+def gen_big_case(rng, idx, nmax, deep=False):
+    """5,000 .. nmax facts of numbers and short names: one big predicate between / before small ones (the lazy
+    reader has to decompress and step over the whole big block to answer a query on a predicate behind it),
+    written plain, gzip and zstd at every encoder level (WriteTo streaming into the compressor, as
+    factstore/simplecolumn_test.go does; and the plain bytes compressed afterwards in one Write / in 4000-byte
+    Writes / by EncodeAll). Every writer's output is opened by the matching lazy constructor and queried on
+    every small predicate; the big predicate is read in full (ReadInto and lazy queries) from the plain file,
+    the gzip file and one zstd level (idx rotates the level; deep = from every writer's output)."""
+    total = rng.randrange(5000, nmax + 1)
+    uniq = lambda: sz_col(rng.choice(["num", "name", "numneg"]), 1, rng.randrange(1000), 0, 0, rng.choice(["node/number", "n", "a/b/item"]))
+    other = lambda: sz_col(rng.choice(["num", "name"]), rng.choice([1, 3, 7]), rng.randrange(100), rng.choice([0, 7, 100, 1000]), 0, rng.choice(["k", "color/c"]))
+
+    def pred(sym, n, ar):
+        cols = [uniq()] + [other() for _ in range(ar - 1)]
+        if rng.random() < 0.5:
+            rng.shuffle(cols)
+        return {"sym": sym, "arity": ar, "n": n, "cols": cols}
+    preds = [pred(rng.choice(["edge", "big_pred", "r"]), total, rng.choice([1, 2, 2, 2, 3] if deep else [1, 2, 2]))]
+    preds.append(pred(rng.choice(["tag", "small", "z"]), rng.choice([1, 50, 300]), rng.choice([1, 1, 2])))        # behind the big block
+    if rng.random() < 0.6:
+        preds.insert(0, pred(rng.choice(["first", "a"]), rng.choice([0, 1, 20, 300]), rng.choice([1, 2])))
+    if rng.random() < 0.4:
+        preds.insert(rng.randrange(len(preds) + 1), {"sym": "flag", "arity": 0, "n": rng.choice([0, 1]), "cols": []})
+    queries = sz_queries(rng, preds, lambda p: 2 if p["n"] > BIG else 3)
+    allvar = list(range(len(preds)))
+    small = [i for i, q in enumerate(queries) if preds[q["pred"]]["n"] <= BIG]
+    lvl = ZLEVELS[idx % 4]
+    variants = [sz_variant("plain", eager=True, real=(deep or idx % 4 == 0), contains=True),
+                sz_variant("gzip", "default", "stream", eager=True, qsel=sorted(set(allvar + small)))]
+    for l in ZLEVELS:
+        if deep or l == lvl:
+            variants.append(sz_variant("zstd", l, "stream", eager=True, contains=deep))
+        else:
+            variants.append(sz_variant("zstd", l, "stream", qsel=small))
+    extra = [sz_variant("zstd", "lib", "stream"), sz_variant("gzip", ["speed", "best", "huffman"][idx % 3], "recompress")]
+    extra += [sz_variant("zstd", ZLEVELS[(idx + 1 + k) % 4], m) for k, m in enumerate(["recompress", "chunks", "encodeall"])]
+    for k, v in enumerate(extra):
+        if deep or k == idx % len(extra) or v["mode"] == "recompress" and v["comp"] == "zstd":
+            v["qsel"] = sorted(set(allvar + small)) if deep else small
+            variants.append(v)
+    return {"stream": "size", "shape": "size-big", "seed": rng.randrange(1 << 48), "preds": preds, "det": rng.random() < 0.3,
+            "variants": variants, "queries": queries}
+
+
+def gen_longline_case(rng, pos, kind, det=False):
+    """A predicate holding a constant whose printed form is 4-60 KB, listed before / between / after other
+    predicates (header order = listing order unless det); every predicate is queried lazily."""
+    def small(sym):
+        ar = rng.choice([1, 2, 2, 3])
+        n = rng.choice([0, 1, 2, 3, 5, 8])
+        cols = [sz_col(rng.choice(["num", "name", "numneg"]), 1, rng.randrange(50), 0, 0, "s")]
+        cols += [sz_col(rng.choice(["num", "name", "str"]), rng.choice([1, 2]), rng.randrange(9), rng.choice([0, 2, 3]), rng.choice([0, 20]), "t") for _ in range(ar - 1)]
+        return {"sym": sym, "arity": ar, "n": n, "cols": cols}
+
+    def long_pred(sym):
+        ar = rng.choice([1, 2, 2, 3])
+        n = rng.choice([1, 1, 2, 3])
+        cols = [sz_col(rng.choice(["num", "name"]), 1, rng.randrange(50), 0, 0, "doc") for _ in range(ar)]
+        for j in rng.sample(range(ar), rng.choice([1, 1, min(2, ar)])):
+            cols[j] = sz_col(kind if rng.random() < 0.8 else rng.choice(LONG_KINDS), 1, rng.randrange(50), 0, rng.choice(LONG_LENS), "")
+        return {"sym": sym, "arity": ar, "n": n, "cols": cols, "long": True}
+    nsmall = rng.choice([2, 3, 4])
+    preds = [small("s%d" % i) for i in range(nsmall)]
+    at = {"before": 0, "after": nsmall, "between": rng.randrange(1, nsmall)}[pos]
+    preds.insert(at, long_pred("longp"))
+    if rng.random() < 0.25:
+        preds.insert(rng.randrange(len(preds) + 1), long_pred("longq"))
+    if rng.random() < 0.3:
+        preds.insert(rng.randrange(len(preds) + 1), {"sym": "flag", "arity": 0, "n": rng.choice([0, 1]), "cols": []})
+    variants = [sz_variant("plain", eager=True, real=True, contains=True), sz_variant("gzip", "default", "stream", eager=True),
+                rng.choice([sz_variant("zstd", rng.choice(ZLEVELS + ["lib"]), "stream", eager=True),
+                            sz_variant("zstd", rng.choice(ZLEVELS), rng.choice(["recompress", "chunks", "encodeall"]), eager=True)])]
+    return {"stream": "size", "shape": "size-longline", "position": pos, "long_kind": kind, "seed": rng.randrange(1 << 48),
+            "preds": preds, "det": det, "variants": variants, "queries": sz_queries(rng, preds, lambda p: 3 if p.get("long") else None)}
+
+
+def sz_check_generated(case, out):
+    """Generator guards (not verdicts): rows distinct, lengths where they were aimed."""
+    for p in case["preds"]:
+        rows = sz_rows(p)
+        if len(set(rows)) != len(rows) and p["arity"] > 0:
+            raise RuntimeError("size stream: generated rows not distinct: %s" % p)
+    if out["dup_written"] or out["facts"] != sum(p["n"] for p in case["preds"]):
+        raise RuntimeError("size stream: harness built %d facts (%d duplicates) for %s" % (out["facts"], out["dup_written"], case["preds"]))
+    if max(out["max_print"] or [0]) >= 64000:
+        raise RuntimeError("size stream: printed constant of %d bytes (N43 territory)" % max(out["max_print"]))
+    if case["shape"] == "size-longline" and max(out["max_print"]) < 4000:
+        raise RuntimeError("size stream: no long line generated (%s)" % out["max_print"])
+    if case["shape"] == "size-big" and out["plain_len"] < 40000:
+        raise RuntimeError("size stream: big store of only %d bytes" % out["plain_len"])
+
+
+def sz_verdict(case, out):
+    """Go-side oracle: None if every writer's output reads back to the written set, else what fails."""
+    total = sum(p["n"] for p in case["preds"])
+    listed = sorted([p["sym"], p["arity"], p["n"]] for p in case["preds"])
+    wants = [sz_expected(case, q) for q in case["queries"]]
+    for v in out["variants"]:
+        vv = v["variant"]
+        tag = "[%s%s%s] " % (vv["comp"], "/" + vv["level"] if vv["level"] else "", "/" + vv["mode"] if vv["mode"] else "")
+        if v.get("write_err"):
+            return tag + "write failed: " + v["write_err"]
+        if not v["decomp_ok"]:
+            return tag + "decompressed file differs from the plain file %s" % v.get("decomp_err", "")
+        for name in ("eager", "real"):
+            c = v.get(name)
+            if c is None:
+                continue
+            what = "ReadInto (%s)" % ("recording store" if name == "eager" else "SimpleInMemoryStore")
+            if c.get("err"):
+                return tag + what + " failed: " + c["err"]
+            if c["n"] != total or c["missing"] or c["extra"] or c["dup"]:
+                return tag + what + " gave %d facts for %d written (missing %d, never written %d, twice %d) %s" % (
+                    c["n"], total, c["missing"], c["extra"], c["dup"], c.get("examples", ""))
+        if v.get("lazy_err"):
+            return tag + "lazy constructor failed: " + v["lazy_err"]
+        if sorted(v["header"]) != listed:
+            return tag + "lazy store header %s, written %s" % (v["header"], listed)
+        if v["est"] != total:
+            return tag + "lazy store EstimateFactCount %d, written %d" % (v["est"], total)
+        sel = vv["qsel"] if vv.get("qsel") is not None else range(len(case["queries"]))
+        if len(v["queries"]) != len(sel):
+            return tag + "harness answered %d of %d queries" % (len(v["queries"]), len(sel))
+        for qi, c in zip(sel, v["queries"]):
+            q, want = case["queries"][qi], wants[qi]
+            p = case["preds"][q["pred"]]
+            what = "lazy GetFacts %s/%d bound columns %s" % (p["sym"], p["arity"], sorted(q["bind"]) or "none")
+            if c.get("err"):
+                return tag + what + " failed: " + c["err"]
+            if c["n"] != want or c["missing"] or c["extra"] or c["dup"]:
+                return tag + what + " returned %d facts, %d written facts match (missing %d, not written or not matching %d, twice %d) %s" % (
+                    c["n"], want, c["missing"], c["extra"], c["dup"], c.get("examples", ""))
+        if v["contains_false"]:
+            return tag + "lazy store does not contain %d of %d written facts asked for" % (v["contains_false"], v["contains_asked"])
+    return None
+
+
+def sz_run(ck, cases):
+    """Returns (failures [(i, why, out)], coverage dict)."""
+    if not cases:
+        return [], {}
+    ck.log("size stream: %d parameterised stores on the Go side" % len(cases))
+    outs = ck.run_go("c19_size", cases)
+    ck.log("size stream done")
+    failed = []
+    cov = {"oracle": "Go-side oracle (set read back == set written, decided with Constant.Equals in the harness; expected counts "
+                     "recomputed in the check from the generating keys); NOT judged by the Coq model",
+           "cases": len(cases), "big_stores": [], "long_line_stores": [], "writers": {}, "zstd_frames": {}, "lazy_queries": 0, "failures": 0}
+    for i, (c, o) in enumerate(zip(cases, outs)):
+        if "out" not in o:
+            failed.append((i, "harness: " + json.dumps(o)[:600], o))
+            continue
+        out = o["out"]
+        sz_check_generated(c, out)
+        v = sz_verdict(c, out)
+        if v:
+            failed.append((i, v, o))
+        for vo in out["variants"]:
+            vv = vo["variant"]
+            k = "/".join(x for x in (vv["comp"], vv["level"], vv["mode"]) if x)
+            cov["writers"][k] = cov["writers"].get(k, 0) + 1
+            cov["lazy_queries"] += len(vo["queries"])
+            if vv["comp"] == "zstd" and c["shape"] != "size-longline":
+                fk = "%s/%s" % (vv["level"], vv["mode"])
+                w = "single-segment" if vo.get("zstd_single_segment") else "window %d KiB" % (vo.get("zstd_window", 0) // 1024)
+                cov["zstd_frames"].setdefault(fk, [])
+                if w not in cov["zstd_frames"][fk]:
+                    cov["zstd_frames"][fk].append(w)
+        if c["shape"] == "size-longline" or (c["shape"] == "corpus" and max(out["max_print"] or [0]) >= 4000):
+            cov["long_line_stores"].append({"position": c.get("position", "corpus"), "kind": c.get("long_kind", ""),
+                                            "header_order": [p["sym"] for p in c["preds"]] if not c["det"] else "deterministic",
+                                            "longest_printed_argument_per_predicate": out["max_print"], "queries": len(c["queries"])})
+        else:
+            cov["big_stores"].append({"facts": out["facts"], "plain_bytes": out["plain_len"], "lines": out["lines"],
+                                      "predicates": [[p["sym"], p["arity"], p["n"]] for p in c["preds"]], "det": c["det"]})
+    cov["failures"] = len(failed)
+    return failed, cov
+
+
 # ------------------------------------------------------- property-level verdict
 def fkey(f):
     return (f["sym"], f["arity"], tuple(f["args"]))
@@ -498,12 +740,20 @@ def run(ck):
     ck.log("harness built")
     rng = ck.rng
     env = get_env(ck)
-    cases, tcorpus = [], []
+    cases, tcorpus, szcases = [], [], []
     for path in sorted(glob.glob(os.path.join(CORPUS, "*.json"))):
         c = json.load(open(path))
         c = c.get("case", c)
         c["shape"] = "corpus"
-        (tcorpus if c.get("ties") else cases).append(c)
+        (szcases if c.get("stream") == "size" else tcorpus if c.get("ties") else cases).append(c)
+    # size stream (Go-side oracle): big stores x every writer / encoder level, long lines before / between / after
+    nszcorpus = len(szcases)
+    nbig, nlong = (4, 6) if ck.quick else (8, 60)
+    for i in range(nbig):
+        szcases.append(gen_big_case(rng, i, 8000 if ck.quick else (12000 if i % 2 else 30000), deep=not ck.quick))
+    for i in range(nlong):
+        szcases.append(gen_longline_case(rng, ["before", "between", "after"][i % 3], LONG_KINDS[(i // 3 + i) % 4], det=(i % 6 == 5)))
+    szfailed, szcov = sz_run(ck, szcases)
     ncorpus = len(cases)
     for i in range(int(os.environ.get("C19_N", 0)) or ck.n(150, 2500)):      # C19_N: smaller runs for experiments
         cases.append(gen_case(rng, env, big=(i % 10 == 0)))
@@ -522,6 +772,9 @@ def run(ck):
     STAGE_T[5] = "sort key (Atom.Hash, Atom.String) not injective on the facts of a predicate: outside the hypothesis of deterministic_bytes"
     STAGE_T[6] = "no hash tie in a case generated to contain one (checks/term_common.py hash differs from Atom.Hash?)"
     reported = set()
+    for i, why, o in szfailed[:3]:
+        ck.violation({"property": "C19", "kind": "the implementation's own output violates the property (size stream, Go-side oracle; no model involved)",
+                      "why": why, "case": szcases[i], "impl": o})
     for i, why in failed:
         if len(ck.violations) >= 5:
             break
@@ -572,7 +825,7 @@ def run(ck):
                                "(sequences of <=2 of 3 rows) x every listing order x deterministic or not x every query pattern "
                                "over {variable, a, b}; constants a = /n%41 (name with '%'), b = \"/s+\"" if exhaustive else "",
            "shapes": shapes, "configurations": comps, "constant_kinds": kinds, "predicates": ar,
-           "lazy_queries": nq, "names_with_percent": pct, "environment": env["raw"], "hash_ties": tie_cov,
+           "lazy_queries": nq, "names_with_percent": pct, "size_stream": dict(szcov, corpus=nszcorpus), "environment": env["raw"], "hash_ties": tie_cov,
            "model_disagreements": disagreements, "property_failures": len(failed),
            "samples": [{"consts": cases[ncorpus]["consts"][:4], "preds": cases[ncorpus]["preds"][:3]},
                        {"consts": cases[-1]["consts"][:4], "preds": cases[-1]["preds"][:3]}]}
@@ -590,6 +843,14 @@ def replay(ck, path):
     ck.build_harness()
     rep = json.load(open(path))
     case = rep.get("case", rep)
+    if case.get("stream") == "size":
+        o = ck.run_go("c19_size", [case])[0]
+        v = "harness: " + json.dumps(o)[:500] if "out" not in o else sz_verdict(case, o["out"])
+        print("replay: size stream, Go-side oracle verdict on the implementation's output: %s" % (v or "holds"))
+        if v:
+            print("VIOLATION property=C19 replay=%s" % path)
+            return 1
+        return 0
     out = ck.run_go("c19", [case])[0]
     if "out" not in out:
         print("replay: harness outcome %s" % json.dumps(out)[:500])
